@@ -60,6 +60,10 @@ func (s step) key() string {
 		return "C"
 	case "Touch":
 		return "T"
+	case "Crash":
+		return "X"
+	case "Recover":
+		return "V"
 	case "Sweep":
 		return "R"
 	case "SyncStart":
@@ -215,6 +219,11 @@ func runScript(sc script, cs cfgSpec, donor []svcFile, verbose bool) (out outcom
 			}
 		case "Touch":
 			w.doTouch()
+		case "Crash":
+			out.Nontrivial = true
+			w.doCrash()
+		case "Recover":
+			w.doRecover()
 		case "Sweep":
 			w.doSweep()
 		case "Fault":
@@ -300,6 +309,11 @@ func runScript(sc script, cs cfgSpec, donor []svcFile, verbose bool) (out outcom
 		if verbose {
 			w.note("%-12s -> primary %s hwm=%d files=%v | service %v", s.key(), obs.Pos, obs.HWM, localNames(obs), names(obs.Svc))
 		}
+	}
+	// an interrupted transaction is resolved before the idle tail (a snapshot of a database whose journal
+	// is still hot is refused by the real code; see Backup.tla, SyncStart)
+	if len(w.fails) == 0 && w.hotPending {
+		w.doRecover()
 	}
 	// idle tail: with no further commits, faults or failures the passes must converge
 	for n := 0; len(w.fails) == 0 && w.idle.n < bound(w.idle.k) && n < 6; n++ {
@@ -454,6 +468,26 @@ func main() {
 	if len(scs) < 500 {
 		core.Infra("expected at least 500 behaviours from TLC, got %d", len(scs))
 	}
+	// ---- 2b. behaviours in which a client dies in the middle of a transaction (hot journal) and LiteFS's
+	// recovery runs at some later point, in particular after a restore has replaced the database
+	var hot []script
+	mustHold(rep, "MC_Backup_emit_hot", "MC_Backup_emit_hot.cfg", 10*time.Minute, func(sc script) {
+		for _, st := range sc.H {
+			if st.A == "Crash" {
+				mu.Lock()
+				hot = append(hot, sc)
+				mu.Unlock()
+				return
+			}
+		}
+	})
+	nHot := len(hot)
+	hot = pruneToLeaves(hot)
+	rep.Note("TLC emitted %d behaviours with an interrupted transaction (MC_Backup_emit_hot.cfg), %d leaves executed", nHot, len(hot))
+	if len(hot) < 50 {
+		core.Infra("expected at least 50 behaviours with an interrupted transaction, got %d", len(hot))
+	}
+	scs = append(scs, hot...)
 
 	// ---- 3. concretisation variants and donors
 	variants := []cfgSpec{
@@ -497,7 +531,12 @@ func main() {
 		go func() {
 			defer wg.Done()
 			for j := range ch {
-				out := runScript(j.sc, j.cs, donors[j.cs.donorKey()], false)
+				dbg := os.Getenv("VERIF_C14_VERBOSE")
+				verbose := dbg != "" && strings.Contains(j.sc.key(), dbg)
+				out := runScript(j.sc, j.cs, donors[j.cs.donorKey()], verbose)
+				if verbose {
+					fmt.Fprintf(os.Stderr, "---- %s [%s]\n%s\n", j.sc.key(), j.cs.config(), strings.Join(out.Log, "\n"))
+				}
 				mu.Lock()
 				restores += out.Restores
 				byBackend[j.cs.Backend]++
@@ -547,6 +586,7 @@ func main() {
 		mustViolate(rep, "lead_poszero", "MC_Backup_lead_poszero.cfg", "Progress|AdoptProp")
 		mustViolate(rep, "lead_hwm1", "MC_Backup_lead_hwm1.cfg", "LeadHwmLeService")
 		mustViolate(rep, "lead_hwm2", "MC_Backup_lead_hwm2.cfg", "LeadNoRepeatLoss")
+		mustViolate(rep, "rel_hot", "MC_Backup_rel_hot.cfg", "RestoreDiscardsInterrupted|ImageAtPosition")
 	}
 	rep.Finish()
 }
